@@ -81,7 +81,7 @@ func c11sDraw(rt *rapid.T) *c11sCase {
 		return append(out, specs[pos:]...)
 	}
 	cs := &c11sCase{}
-	switch rapid.IntRange(0, 8).Draw(rt, "shape") {
+	switch rapid.IntRange(0, 10).Draw(rt, "shape") {
 	case 4:
 		// two changes: the first introduces a package (import and use), the
 		// second has that import on a context or '-' line and rewrites
@@ -168,6 +168,27 @@ func c11sDraw(rt *rapid.T) *c11sCase {
 		cs.Patch = "@@\nvar pk identifier\nvar x expression\n@@\n-import pk \"example.com/lib/oldp\"\n+import " + plus + "\n\n-legacyDo(x)\n+localDo(x)\n"
 		cs.File = "package foo\n\n" + c11sImports(at(by, spec), grouped) + uses() + "func sites() {\n\tlegacyDo(1)\n}\n"
 		cs.Expected = expect(spec)
+	case 9:
+		// a blank (dot) import on a context line, and the change adds
+		// another blank (dot) import: both are there afterwards
+		name := rapid.SampledFrom([]string{"_", "."}).Draw(rt, "blankOrDot")
+		cs.Shape = "context-import-and-added-import-both-named:" + name
+		cs.Patch = "@@\nvar x expression\n@@\n import " + name + " \"example.com/lib/oldp\"\n+import " + name + " \"example.com/lib/newp\"\n\n-legacyDo(x)\n+localDo(x)\n"
+		cs.File = "package foo\n\n" + c11sImports(at(by, name+` "example.com/lib/oldp"`), grouped) + uses() + "func sites() {\n\tlegacyDo(1)\n}\n"
+		cs.Expected = expect(name+` "example.com/lib/oldp"`, name+` "example.com/lib/newp"`)
+	case 10:
+		// a blank (dot) import is turned into an ordinary or named import of
+		// the same path: the blank one goes
+		name := rapid.SampledFrom([]string{"_", "."}).Draw(rt, "blankOrDot")
+		to := rapid.SampledFrom([]string{"", "chk"}).Draw(rt, "newName")
+		cs.Shape = "blank-import-becomes-named:" + name + "->" + to
+		plus, use := "\"example.com/lib/oldp\"", "oldp"
+		if to != "" {
+			plus, use = to+" "+plus, to
+		}
+		cs.Patch = "@@\nvar x expression\n@@\n-import " + name + " \"example.com/lib/oldp\"\n+import " + plus + "\n\n-legacyDo(x)\n+" + use + ".Do(x)\n"
+		cs.File = "package foo\n\n" + c11sImports(at(by, name+` "example.com/lib/oldp"`), grouped) + uses() + "func sites() {\n\tlegacyDo(1)\n}\n"
+		cs.Expected = expect(plus)
 	case 0:
 		// the path of a '+' import is already imported, but under a name the
 		// patch does not mention: that import is a bystander, the '+' import
